@@ -23,7 +23,7 @@ import time
 VERIF = os.path.dirname(os.path.dirname(os.path.abspath(__file__)))
 REPO = os.environ.get("VERIF_REPO", "/repo")
 COQ = os.path.join(VERIF, "coq")
-DRIVER = os.path.join(VERIF, "ocaml", "driver")
+BIN = os.path.join(VERIF, "ocaml", "bin")
 
 FORBIDDEN = re.compile(
     r"\b(Admitted|admit|Axiom|Axioms|Parameter|Parameters|Conjecture|Conjectures|Hypothesis|Hypotheses|"
@@ -175,11 +175,12 @@ class Ctx:
         self.trusted = list(TRUSTED_BASE_COMMON)
         self.axioms_seen: set[str] = set()
         self.known = load_known()
-        self._driver = None
+        self.groups = []
 
     # ---------- proof side ----------
-    def build(self):
-        r = subprocess.run([os.path.join(VERIF, "build.sh")], capture_output=True, text=True, timeout=3400)
+    def build(self, groups=()):
+        self.groups = list(groups)
+        r = subprocess.run([os.path.join(VERIF, "build.sh"), self.prop, *groups], capture_output=True, text=True, timeout=3400)
         ok = "BUILD-OK" in r.stdout
         self.obligation("coq-build+extraction+driver", ok, (r.stdout + r.stderr)[-2000:] if not ok else "")
         return ok
@@ -232,10 +233,11 @@ class Ctx:
         self.obligations.append({"name": name, "discharged": bool(ok), "detail": detail, **extra})
 
     # ---------- model side ----------
-    def model(self, requests: list[str]) -> list[str]:
+    def model(self, requests: list[str], group=None) -> list[str]:
         if not requests:
             return []
-        r = subprocess.run([DRIVER], input="\n".join(requests) + "\n", capture_output=True, text=True, timeout=1800)
+        group = group or self.groups[0]
+        r = subprocess.run([os.path.join(BIN, group)], input="\n".join(requests) + "\n", capture_output=True, text=True, timeout=1800)
         out = r.stdout.split("\n")
         if out and out[-1] == "":
             out.pop()
